@@ -1,10 +1,14 @@
 """C16 — Linear-constraint specifications compile to the affine map they express.
 
 Correspondence stream `c16`: the real `LinearConstraints.from_spec(spec, names)` (and, for a share of
-the cases, `ModelSpec.get_linear_constraints`) against `Model.Constraints.fromSpec`. The model starts
-at the string: `Model/ConstraintParse.lean` tokenises and parses it (base operator resolver, live
-constraint table); the harness also asks the REAL parser (`LinearConstraintParser.get_ast`) for the
-tree of every string the code will parse and the two trees / rejections are compared.
+the cases, `ModelSpec.get_linear_constraints`) against `Model.ConstraintForms.fromSpecAny`, the model of
+from_spec's whole dispatch and of the constructor, which for the formula forms runs
+`Model.Constraints.fromSpec`. The model starts at the string: `Model/ConstraintParse.lean` tokenises and
+parses it (base operator resolver, live constraint table); the harness also asks the REAL parser
+(`LinearConstraintParser.get_ast`) for the tree of every string the code will parse and the two trees /
+rejections are compared. For the other forms the Python object enters the model structurally (an instance
+as the arguments of its constructor) and matrix, values, shapes, variable_names, n_constraints, or the
+exception class and message, are compared.
 
 Oracle (impl only, independent of model and of formulaic's parser): a small recursive-descent reader
 of conventional algebra evaluates lhs - rhs with `fractions.Fraction`
@@ -15,6 +19,10 @@ A.x - b == lhs(x) - rhs(x); a specification whose lhs - rhs is a polynomial of d
 divides by the constant zero, or that divides by a column expression and has a non-zero second
 difference (exact witness of non-affinity), must be rejected. Rejection of a linear specification is NOT a failure
 (completeness is not part of the property: `(a-a)*b` is rejected by design).
+For a (matrix, values) pair / bare matrix the map is x -> matrix.x - values: the instance must hold the rows
+and values as given, in order (plain-Python reading of the description); ragged / wrong-length / wrong-width
+input must be rejected, well-formed input accepted; an instance must come back as the same object, untouched;
+every accepted result read back as the tuple (constraint_matrix, constraint_values) must give the same result.
 """
 from __future__ import annotations
 
@@ -34,6 +42,40 @@ REQUIRED_THEOREMS = [
     "parser_fails_only_with_syntax_error",
     "compile_sound_from_string",
     "parser_total",
+    # exactly which specifications are accepted
+    "accepted_iff",
+    "tree_accepted_iff",
+    "comma_compiles_iff",
+    # compiling is a homomorphism; the row is determined by the map
+    "compile_add_hom",
+    "compile_sub_hom",
+    "compile_eq_hom",
+    "compile_sign_hom",
+    "compile_scalar_mul_hom",
+    "compile_scalar_div_hom",
+    "compile_mul_div_sem",
+    "linear_operations_total",
+    "chained_equalities_one_row",
+    "same_map_same_result",
+    "column_order_equivariant",
+    "entries_depend_only_on_the_name",
+    # every kind of specification: from_spec's dispatch and the constructor
+    "from_spec_formula_forms",
+    "compile_sound_every_form",
+    "accepted_iff_every_form",
+    "names_required",
+    "instance_returned_as_is",
+    "list_form_is_joined_string",
+    "bare_matrix_is_pair_with_zero",
+    "pair_form_accepted_iff",
+    "scalar_values_and_flat_rows",
+    "built_instance_well_shaped",
+    "matrix_form_denotes",
+    "matrix_form_has_formula",
+    "forms_agree",
+    "n_constraints_matrix_forms",
+    "dict_entry_is_string_shifted",
+    "messages_match_source",
 ]
 TRUSTED = [
     "modelled and compared per case: LinearConstraintParser.get_ast = tokenizer + shunting-yard with the base operator resolver over the "
@@ -41,27 +83,47 @@ TRUSTED = [
     "itself; its tree / rejection is compared with the real parser's for every string of every case, and the matrix is compiled from the "
     "model's own tree. The theorems compile_sound … are proved for ANY parse function, hence also for this one (compile_sound_from_string). "
     "The oracle uses its own independent recursive-descent reader, so a mis-parse (precedence, associativity) surfaces against conventional algebra too.",
-    "modelled, not verified: ast.literal_eval on [0-9.]+ tokens (Model.Constraints.parseNumber), numpy array assembly, "
+    "modelled and compared per case: LinearConstraints.from_spec's whole isinstance chain and LinearConstraints.__init__ "
+    "(Model/ConstraintForms.lean): the Python object passed as the specification enters the model structurally (instance = the ARGUMENTS of "
+    "its constructor, string, list, mapping, tuple, ndarray, number, None; variable_names a list or None); the model decides the branch, "
+    "runs its own constructor (shape discovery of nested sequences, 1-D -> one row, scalar values broadcast, default names, the four "
+    "validations, the final variable_names line) and predicts matrix, values, shape, variable_names, n_constraints or the exception class "
+    "AND message; the messages the model carries are proved equal to the literal messages in the live source (Gen/ConstraintMessages.lean, "
+    "theorem messages_match_source)",
+    "modelled, not verified: ast.literal_eval on [0-9.]+ tokens (Model.Constraints.parseNumber), numpy array assembly "
+    "(numpy.array on nested sequences of numbers/strings: rectangular -> that shape, ragged -> ValueError; vstack/hstack), "
     "graphlib scheduling inside ASTNode.to_terms (irrelevant for successful evaluations; on failure the model reports the set "
     "of error classes any schedule / set order could raise and the implementation's class must be one of them)",
     "numbers are exact rationals in the model; the generator keeps every intermediate a dyadic rational below 2^50 so the "
-    "implementation's float arithmetic is exact and is compared exactly (cases marked exact); on the mutated/malformed stream, where "
-    "non-dyadic literals can arise, values are compared with relative tolerance 1e-9; IEEE rounding/overflow is not modelled",
+    "implementation's float arithmetic is exact and is compared exactly (cases marked exact, and all matrix-form cases); on the "
+    "mutated/malformed stream, where non-dyadic literals can arise, values are compared with relative tolerance 1e-9; IEEE "
+    "rounding/overflow is not modelled; a string inside an array-like makes numpy turn the whole array into strings: numeric cells of "
+    "such an array are compared through their decimal text",
     "Python set iteration order is abstracted: theorem order_independent shows the result does not depend on it",
+    "not modelled (outside the property): LinearConstraints.__str__ / show (pretty-printing with float formatting; the text is not "
+    "re-parseable: negative coefficients print as `+ -1.0 * a`; __repr__ IS modelled and compared), dict values that are not numbers, numpy dtypes (bool, object), pandas Index as variable_names",
 ]
 ASSUMPTIONS = [
     "quoted VALUE tokens contain no backslash escapes (then ast.literal_eval returns a str exactly when nothing follows the closing quote)",
-    "dict specifications have distinct keys (a Python dict cannot have others)",
+    "dict specifications have distinct keys (a Python dict cannot have others) and numeric values",
+    "array-like arguments are nests of Python numbers / strings / lists / tuples / ndarrays of those (no None, dict or object inside an array)",
 ]
 RULE = (
     "random expression trees (depth <= 6: + - * / unary +/-, constants on both sides, repeated variables, dyadic literals) over "
-    "1-6 column names incl. backtick-quoted names with odd characters and python-call names, rendered with random whitespace "
+    "1-6 column names incl. backtick-quoted names with odd characters, python-call names and (p=0.15 each, plus a fixed table of 48 "
+    "specifications x 3 forms x 2 column orders) names that LOOK LIKE literals or operators (`1`, `0`, `1.0`, `-1`, `True`, `+`, …: a "
+    "back-quoted `1` is a column, never the constant), rendered with random whitespace "
     "and redundant parentheses, 1-4 constraints, as str / list of str / dict; ~15% carry an injected fault (product of two "
     "non-constant factors, non-constant or zero divisor, unknown name, string literal, tuple under an operator); plus a "
     "malformed stream (templates + character mutations); a share goes through ModelSpec.get_linear_constraints on real "
     "model-matrix column names; plus a history stream: ONE specification compiled 3-6 times in the same process against "
     "permuted / extended / shrunk column lists and through the three forms, every step compared with the model (a pure "
-    "function of (spec, names)) and with the oracle for its own column order. non-trivial = the specification contains a binary operator and a column name"
+    "function of (spec, names)) and with the oracle for its own column order; plus a stream over EVERY kind of specification: "
+    "bare matrices (list / tuple / ndarray, flat rows, ragged, 3-D, scalars, with strings), (matrix, values) pairs (scalar, right / wrong "
+    "length, 2-D, string values), LinearConstraints instances (built by the real constructor from generated arguments, some invalid) passed "
+    "with other names, formula forms with names None / [] / wrong length, the empty list / mapping / tuple, lists mixing strings and numbers, "
+    "None and numbers; every accepted result is also read back as the tuple (constraint_matrix, constraint_values) and as an instance. "
+    "non-trivial = the specification contains a binary operator and a column name, or is a matrix / pair / instance form"
 )
 
 # ----------------------------------------------------------------------------- generator
@@ -69,6 +131,87 @@ RULE = (
 PLAIN = ["a", "b", "c", "x1", "y_2", "Intercept", "w.z", "alpha"]
 ODD = ["a:b", "x y", "a+b", "C(g)[T.u]", "np.log(x)", "1e3", "2x", "é", "a=b", "p,q", "3", "(", "f(", "T.[x]"]
 CALLS = ["np.log(x)", "C(g)[T.u]", "f(a, b)", "g(x)[1]"]  # tokenised unquoted as one PYTHON token
+# column names that LOOK LIKE literals or operators: back-quoted they are COLUMNS (coefficient in A), never constants
+LITERALISH = ["1", "0", "2", "1.0", "-1", "1e3", "True", "None", "+", "-", "*", "/", "=", ",", "0.5", "1.", "00"]
+
+
+def _with_literalish(rng, names, p=0.15):
+    """each name is replaced, with probability p, by one that looks like a number / literal / operator"""
+    out = list(names)
+    for i in range(len(out)):
+        if rng.random() < p:
+            cand = [x for x in LITERALISH if x not in out]
+            if cand:
+                out[i] = rng.choice(cand)
+    return out
+
+
+# a small fixed table (every tier): back-quoted literal-looking columns next to the real constants
+LITERALISH_TABLE = [
+    (["1", "x"], "`1` + x = 3"),
+    (["1", "x"], "`1` * x"),
+    (["1", "x"], "x / `1`"),
+    (["1", "x"], "x * `1`"),
+    (["0", "1"], "2 * `0` = `1`"),
+    (["1"], "`1`"),
+    (["1"], "`1` = 1"),
+    (["1"], "1 = `1`"),
+    (["1"], "`1` * 2"),
+    (["1"], "2 * `1`"),
+    (["1"], "`1` / 2"),
+    (["1"], "1 / `1`"),
+    (["1"], "2 / `1`"),
+    (["1"], "`1` * `1`"),
+    (["1"], "`1` / `1`"),
+    (["1"], "3 * `1` + `1`"),
+    (["1"], "`1` - `1`"),
+    (["1"], "`1` + 1"),
+    (["1"], "1 + `1`"),
+    (["1"], "1 - `1` = `1` - 1"),
+    (["1"], "(`1` + 1) * 2"),
+    (["1"], "2 * (1 + `1`)"),
+    (["1"], "(1 + `1`) / 2"),
+    (["1", "x"], "(`1` + 1) * x"),
+    (["1", "x"], "(`1` + 1) * (x + 1)"),
+    (["1", "x"], "x / (`1` + 1)"),
+    (["1", "x"], "`1` + x, x - `1` = 1"),
+    (["x", "1"], "`1` + 2 * x = 3"),
+    (["0"], "`0`"),
+    (["0"], "`0` * 5 = 1"),
+    (["0", "x"], "x / `0`"),
+    (["0", "x"], "x * `0`"),
+    (["0", "x"], "x + `0`"),
+    (["2", "x"], "2 * `2` + x = 2"),
+    (["1.0", "x"], "`1.0` / 2 + x"),
+    (["1.0", "x"], "x * `1.0`"),
+    (["-1", "x"], "`-1` + 1 = x"),
+    (["-1", "x"], "`-1` * x"),
+    (["1e3", "x"], "`1e3` * 0.5 + x"),
+    (["True", "None"], "`True` + `None` = 1"),
+    (["True", "None"], "`True` * `None`"),
+    (["True", "x"], "x / `True`"),
+    (["+", "*"], "`+` + `*` = 2"),
+    (["+", "*"], "`+` * `*`"),
+    (["/", "-"], "`/` - `-`"),
+    (["=", ","], "`=` = `,`, `,` = 1"),
+    (["1", "0", "2"], "`1` + `0` + `2` = 1 + 0 + 2"),
+    (["1", "0", "2"], "`1` * 0 + `0` * 1 + 2 * `2`"),
+]
+
+
+def _literalish_cases(rng):
+    for names, text in LITERALISH_TABLE:
+        for form in ("str", "list", "dict"):
+            if form == "str":
+                spec = text
+            elif form == "list":
+                spec = [t for t in text.split(", ")]
+            else:
+                spec = [[t, rng.choice(DICT_VALUES)] for t in dict.fromkeys(text.split(", "))]
+            yield dict(names=list(names), form=form, spec=spec, via="from_spec", exact=True)
+            # the same columns in another order, and with an unrelated column in front
+            other = list(reversed(names)) if len(names) > 1 else ["y"] + list(names)
+            yield dict(names=other, form=form, spec=spec, via="from_spec", exact=True)
 LITS = ["0", "1", "2", "3", "4", "5", "7", "10", "0.5", "0.25", "1.5", "2.5", "0.75", "0.125", ".5", "2.", "00", "3.0", "0.0"]
 LIMIT = 2 ** 50
 
@@ -290,6 +433,7 @@ MALFORMED = [
     "a*b + 1/0", "1/0 + a*b", "(a*b, 1/0)", "a/(b*c)", "(a+1)*(b+1)", "a*a", "a/a", "3", "3 = 2", "zz", "a + zz", "zz, a*b",
     "a/2/2", "a/(1+1)", "2*3*a", "a*2*3", "(2+3)*(a+b)", "(a+b)*(2+3)", "1/4*a", "a - a", "a = a", "a+a+a", "-a", "+a",
     "-(-a)", "-(a+b)", "(-a)*2", "2*(-a)", "a*0", "0*a", "a/1", "\n a \n+\tb ", "a;b", "a | b", "a & b", "a % b", "a @ b",
+    "`1` + a", "`1` * a", "a / `1`", "2 * `0` = `1`", "`1` * `2`", "`1` = 1", "a * `0`", "`+` + a", "`1`*2 + `2`*1", "`0`/2", "2/`2`",
     "`a`+a", "`np.log(x)` + np.log(x)", "C(g)[T.u] = 1", "`a:b` - `x y`", "Intercept = 0",
 ]
 ALPHABET = list("ab()+-*/=, 01.`'") + ["zz", "x1"]
@@ -318,7 +462,8 @@ def _history(rng):
     is compared with the model and with the oracle for ITS OWN column order."""
     pool = list(dict.fromkeys(PLAIN + ODD + CALLS))  # distinct names: a permutation must be observable
     k = rng.randint(2, 6)
-    names = rng.sample(pool, k)
+    names = _with_literalish(rng, rng.sample(pool, k))
+    pool = list(dict.fromkeys(pool + LITERALISH))
     depth = rng.choice([1, 2, 2, 3, 3, 4])
     ncons = rng.choice([1, 1, 2, 2, 3])
     cons_x = [_constraint(rng, names, depth, first=(q == 0)) for q in range(ncons)]
@@ -351,17 +496,148 @@ def _history(rng):
         steps.append(dict(names=list(nm), form=form, spec=_as_form(rng, form, cons, values), via="from_spec", exact=exact))
     return dict(history=steps)
 
+# ----------------------------------------------------------------------------- every kind of specification
+
+NUMS = ["0", "1", "-1", "2", "3", "-2", "0.5", "-2.5", "10", "-0.25", "4", "1.5"]
+
+
+def _seq(rng, items, top=False):
+    return dict(seq=items, **{"as": rng.choice(["list", "list", "tuple", "nd"])})
+
+
+def _row(rng, n, text=0.0):
+    return _seq(rng, [dict(s=rng.choice(["a", "b", "x0", "1"])) if rng.random() < text else rng.choice(NUMS) for _ in range(n)])
+
+
+def _matrix(rng, k, n, text=0.0):
+    return _seq(rng, [_row(rng, n, text) for _ in range(k)])
+
+
+def _nrows(m):
+    """rows numpy will see: a sequence of sequences has one per element, a flat (or empty) sequence is ONE row"""
+    if isinstance(m, dict) and m.get("seq") and all(isinstance(x, dict) and "seq" in x for x in m["seq"]):
+        return len(m["seq"])
+    return 1
+
+
+def _pycase(rng):
+    """a specification of any kind (LinearConstraints.from_spec's whole isinstance chain and the constructor's
+    validations): mostly well formed, with the wrong shapes / lengths / kinds mixed in"""
+    k = rng.choice([0, 1, 1, 2, 2, 3, 4])
+    n = rng.choice([0, 1, 2, 2, 3, 3, 4])
+    via = "from_spec"
+    r = rng.random()
+    # variable names: none / right length / wrong length / empty
+    q = rng.random()
+    if q < 0.35:
+        names = None
+    elif q < 0.8:
+        names = rng.sample(PLAIN + ODD, n) if n <= len(PLAIN + ODD) else None
+    elif q < 0.9:
+        names = rng.sample(PLAIN + ODD, rng.choice([x for x in range(0, 6) if x != n]))
+    else:
+        names = []
+    if r < 0.3:
+        # bare matrix: a list / tuple / ndarray of rows, or one flat row
+        if rng.random() < 0.25:
+            m = _row(rng, n)
+            rows = None
+        else:
+            m = _matrix(rng, k, n, text=0.03 if rng.random() < 0.2 else 0.0)
+            rows = m["seq"]
+        x = rng.random()
+        if x < 0.1 and rows:
+            rng.choice(rows)["seq"].append(rng.choice(NUMS))  # ragged
+        elif x < 0.15 and rows:
+            rows[rng.randrange(len(rows))] = rng.choice(NUMS)  # a number among the rows
+        elif x < 0.2:
+            m = _seq(rng, [m, _matrix(rng, k, n) if rows is not None else _row(rng, n)])  # one dimension too many
+        kind = m["as"]
+        py = dict(t="nd", v=m) if kind == "nd" else dict(t=kind, v=m["seq"])
+    elif r < 0.62:
+        # (matrix, values)
+        m = _row(rng, n) if rng.random() < 0.2 else _matrix(rng, k, n)
+        kk = _nrows(m)
+        x = rng.random()
+        if x < 0.25:
+            v = rng.choice(NUMS)
+        elif x < 0.8:
+            v = _row(rng, kk)
+        elif x < 0.9:
+            v = _row(rng, rng.choice([y for y in range(0, 5) if y != kk]))
+        elif x < 0.95:
+            v = _matrix(rng, 1, kk)
+        elif x < 0.98:
+            v = dict(s="c")
+        else:
+            v = _row(rng, kk, text=0.5)
+        if rng.random() < 0.06 and m["seq"] and isinstance(m["seq"][0], dict) and "seq" in m["seq"][0]:
+            rng.choice(m["seq"])["seq"].append(rng.choice(NUMS))
+        if rng.random() < 0.03:
+            m = rng.choice(NUMS)  # a scalar for the matrix
+        py = dict(t="tuple", v=[m, v])
+    elif r < 0.72:
+        # an instance goes through untouched, whatever names come with it
+        kk, nn = max(k, 1), max(n, 1)
+        inames = rng.sample(PLAIN + ODD, nn) if rng.random() < 0.7 else None
+        bvals = _row(rng, kk) if rng.random() < 0.8 else rng.choice(NUMS)
+        py = dict(t="inst", A=_matrix(rng, kk, nn), b=bvals, names=inames)
+        x = rng.random()
+        if x < 0.08:
+            py["b"] = _row(rng, kk + 1)  # the constructor itself must refuse
+        elif x < 0.16 and inames:
+            py["names"] = inames + ["extra"]
+        elif x < 0.2:
+            py["A"] = _seq(rng, [py["A"], py["A"]])
+    elif r < 0.9:
+        # the formula forms with missing / empty names, the empty list, a list that is not all strings
+        x = rng.random()
+        cols = names if names else ["a", "b"]
+        cons_x = [_constraint(rng, cols, rng.choice([1, 2])) for _ in range(rng.choice([1, 2]))]
+        cons = [t for t, _ in cons_x]
+        formula_exact = all(x for _, x in cons_x)
+        if x < 0.3:
+            py = dict(t="str", v=",".join(cons))
+        elif x < 0.5:
+            py = dict(t="list", v=[dict(s=t) for t in cons])
+        elif x < 0.6:
+            py = dict(t="list", v=[])
+        elif x < 0.75:
+            items = [dict(s=t) for t in cons] + [rng.choice(NUMS)]
+            rng.shuffle(items)
+            py = dict(t="list", v=items)
+        elif x < 0.92:
+            py = dict(t="dict", v=[[t, rng.choice(DICT_VALUES)] for t in dict.fromkeys(cons)])
+        else:
+            py = dict(t="dict", v=[])
+    else:
+        py = rng.choice([dict(t="none"), dict(t="num", v=rng.choice(NUMS)), dict(t="tuple", v=[]), dict(t="nd", v=rng.choice(NUMS)),
+                         dict(t="tuple", v=[rng.choice(NUMS)] * 3), dict(t="tuple", v=[_row(rng, n)] * 3), dict(t="nd", v=dict(seq=[], **{"as": "list"}))])
+    if rng.random() < 0.1:
+        via, names = "modelspec", list(MODELSPEC_NAMES)
+        if py["t"] in ("tuple", "list", "nd") and rng.random() < 0.8:
+            kk = max(k, 1)
+            py = dict(t="tuple", v=[_matrix(rng, kk, len(MODELSPEC_NAMES)), _row(rng, kk)]) if rng.random() < 0.6 else dict(t="list", v=_matrix(rng, kk, len(MODELSPEC_NAMES))["seq"])
+    out = dict(names=names, form="py", py=py, via=via)
+    if _py_formula(py) is not None:
+        out["exact"] = bool(locals().get("formula_exact", True))
+    return out
+
 
 def cases(rng, tier):
     n = {"quick": 700, "thorough": 12000, "search": 300}[tier]
     nmal = {"quick": 260, "thorough": 2500, "search": 60}[tier]
     nhist = {"quick": 150, "thorough": 2000, "search": 120}[tier]
+    npy = {"quick": 500, "thorough": 6000, "search": 200}[tier]
+    yield from _literalish_cases(rng)
+    for i in range(npy):
+        yield _pycase(rng)
     for i in range(nhist):
         yield _history(rng)
     for i in range(n):
         k = rng.randint(1, 6)
         pool = PLAIN + ODD + CALLS
-        names = rng.sample(pool, k)
+        names = _with_literalish(rng, rng.sample(pool, k))
         via = "from_spec"
         if rng.random() < 0.12:
             via, names = "modelspec", list(MODELSPEC_NAMES)
@@ -394,7 +670,8 @@ def cases(rng, tier):
             spec = [[key, rng.choice(["0", "1", "-2", "3", "0.5", "-1.25", "10", "0.0"])] for key in keys]
         yield dict(names=names, form=form, spec=spec, via=via, exact=exact)
     for i in range(nmal):
-        names = rng.choice([["a", "b", "c", "d"], ["a", "b"], ["a"], ["a", "b", "c", "d", "np.log(x)", "C(g)[T.u]", "a:b", "x y", "Intercept"]])
+        names = rng.choice([["a", "b", "c", "d"], ["a", "b"], ["a"], ["a", "b", "c", "d", "np.log(x)", "C(g)[T.u]", "a:b", "x y", "Intercept"],
+                            ["a", "1", "b", "0"], ["1", "2", "a", "b", "+"]])
         s = rng.choice(MALFORMED)
         if rng.random() < 0.35:
             s = _constraint(rng, names, rng.choice([1, 2, 3]))[0]
@@ -430,6 +707,8 @@ def cases(rng, tier):
 def describe(c):
     if "history" in c:
         return f"history,steps={len(c['history'])},{c['history'][0]['form']}"
+    if c["form"] == "py":
+        return f"py,{c['py']['t']},names={'none' if c['names'] is None else 'empty' if not c['names'] else 'given'},{c.get('via', 'from_spec')}"
     txt = _text(c)
     ops = sum(txt.count(o) for o in "+-*/")
     size = "ops0" if ops == 0 else "ops1-3" if ops <= 3 else "ops4-10" if ops <= 10 else "ops11+"
@@ -437,6 +716,8 @@ def describe(c):
 
 
 def _text(c):
+    if c["form"] == "py":
+        return ",".join(_strings(c))
     if c["form"] == "str":
         return c["spec"]
     if c["form"] == "list":
@@ -447,6 +728,8 @@ def _text(c):
 def nontrivial(c):
     if "history" in c:
         return any(nontrivial(s) for s in c["history"])
+    if c["form"] == "py" and _py_formula(c["py"]) is None:
+        return c["py"]["t"] in ("list", "tuple", "nd", "inst")
     t = _text(c)
     return any(o in t for o in "+-*/=") and any(ch.isalpha() for ch in t)
 
@@ -501,6 +784,12 @@ def _parse(names, s):
 
 
 def _strings(c):
+    if c["form"] == "py":
+        f = _py_formula(c["py"])
+        if f is None:
+            return []
+        form, spec = f
+        return _strings(dict(form=form, spec=spec))
     if c["form"] == "str":
         return [c["spec"]]
     if c["form"] == "list":
@@ -515,31 +804,150 @@ def impl(c):
     return _impl_one(c)
 
 
+def _py_formula(d):
+    """(form, spec) in the old case vocabulary when the Python object is one of the three formula forms"""
+    t = d["t"]
+    if t == "str":
+        return "str", d["v"]
+    if t == "dict":
+        return "dict", d["v"]
+    if t == "list" and all(isinstance(x, dict) and "s" in x for x in d["v"]):
+        return "list", [x["s"] for x in d["v"]]
+    return None
+
+
+def _build_arr(a):
+    """array-like from its description: "0.5" (number) | {"s": text} | {"seq": [...], "as": list|tuple|nd}"""
+    if isinstance(a, str):
+        return _num(a)
+    if "s" in a:
+        return a["s"]
+    seq = [_build_arr(x) for x in a["seq"]]
+    kind = a.get("as", "list")
+    if kind == "tuple":
+        return tuple(seq)
+    if kind == "nd":
+        import numpy
+
+        try:
+            arr = numpy.array(seq)
+            if arr.dtype.kind in "iufUS":
+                return arr
+        except Exception:
+            pass
+    return seq
+
+
+def _build_py(d):
+    from formulaic.utils.constraints import LinearConstraints
+
+    t = d["t"]
+    if t == "none":
+        return None
+    if t == "num":
+        return _num(d["v"])
+    if t == "str":
+        return d["v"]
+    if t == "dict":
+        return {k: _num(v) for k, v in d["v"]}
+    if t == "list":
+        return [_build_arr(x) for x in d["v"]]
+    if t == "tuple":
+        return tuple(_build_arr(x) for x in d["v"])
+    if t == "nd":
+        import numpy
+
+        inner = _build_arr(d["v"])
+        try:
+            return numpy.array(inner)
+        except ValueError:
+            return inner  # a ragged nest is not an array: numpy raises the same error inside the library
+    if t == "inst":
+        return LinearConstraints(_build_arr(d["A"]), _build_arr(d["b"]), d["names"])
+    raise ValueError(t)
+
+
+def _cell(x):
+    if isinstance(x, list):  # an array with too many dimensions (never valid): keep the nest
+        return [_cell(y) for y in x]
+    return dict(s=x) if isinstance(x, str) else _frac(x)
+
+
+def _observe(lc):
+    A = lc.constraint_matrix
+    b = lc.constraint_values
+    return dict(
+        A=[[_cell(v) for v in row] for row in A.tolist()] if A.ndim >= 2 else [_cell(v) for v in A.tolist()],
+        b=[_cell(v) for v in b.tolist()] if b.ndim >= 1 else _cell(b.tolist()),
+        shape=list(A.shape),
+        bshape=list(b.shape),
+        names=[str(x) for x in lc.variable_names],
+        n=int(lc.n_constraints),
+        repr=repr(lc),
+    )
+
+
+ETAGS = [
+    ("`variable_names` must be provided", "namesRequired"),
+    ("`constraint_matrix` must be a 2D array", "matrixNot2D"),
+    ("`constraint_values` must be a 1D array", "valuesNot1D"),
+    ("Number of rows in constraint matrix", "rowsMismatch"),
+    ("Number of column names does not match", "namesMismatch"),
+    ("inhomogeneous", "inhomogeneous"),
+    ("need at least one array to concatenate", "emptyDict"),
+    ("tuple index out of range", "indexError"),
+    ("did not contain a loop", "ufuncType"),
+]
+
+
+def _etag(e):
+    msg = str(e)
+    for needle, tag in ETAGS:
+        if needle in msg:
+            return tag
+    return ""
+
+
 def _impl_one(c):
     from formulaic.utils.constraints import LinearConstraints
 
-    names = list(c["names"])
-    if c["form"] == "dict":
-        spec = {k: _num(v) for k, v in c["spec"]}
-    else:
-        spec = c["spec"] if c["form"] == "str" else list(c["spec"])
+    names = None if c["names"] is None else list(c["names"])
+    given = None
     parses = []
     for s in dict.fromkeys(_strings(c)):
-        parses.append([s, _parse(names, s)])
+        parses.append([s, _parse(names or [], s)])
     try:
+        if c["form"] == "py":
+            spec = _build_py(c["py"])  # for an instance: the real constructor runs here
+            if c["py"]["t"] == "inst":
+                given = (spec, _observe(spec))
+        elif c["form"] == "dict":
+            spec = {k: _num(v) for k, v in c["spec"]}
+        else:
+            spec = c["spec"] if c["form"] == "str" else list(c["spec"])
         if c.get("via") == "modelspec":
             lc = _model_spec().get_linear_constraints(spec)
         else:
             lc = LinearConstraints.from_spec(spec, variable_names=names)
-        A = lc.constraint_matrix
-        b = lc.constraint_values
-        out = dict(
-            A=[[_frac(v) for v in row] for row in A.tolist()],
-            b=[_frac(v) for v in b.tolist()],
-            shape=list(A.shape),
-        )
+        out = _observe(lc)
+        if given is not None:
+            # an instance must come back as it is: the same object, attributes untouched
+            out["same"] = lc is given[0]
+            out["given"] = given[1]
+        else:
+            # the result read back as a (matrix, values) tuple and as an instance: the forms must agree
+            try:
+                # (with no column the constructor stores x0 … x(rows-1) as names, which it would itself reject: the
+                # matrix and the values are read back without names then; variable_names are not part of C16)
+                back = lc.variable_names if lc.constraint_matrix.shape[1] else None
+                out["rt"] = _observe(LinearConstraints.from_spec((lc.constraint_matrix, lc.constraint_values), back))
+            except Exception as e:
+                out["rt"] = dict(error=type(e).__name__)
+            out["rt_same"] = LinearConstraints.from_spec(lc, ["zz"]) is lc
     except Exception as e:
-        out = dict(error=type(e).__name__)
+        out = dict(error=type(e).__name__, etag=_etag(e), msg=str(e))
+        if given is not None:
+            out["given"] = given[1]
     out["parses"] = parses
     return out
 
@@ -551,10 +959,41 @@ def request(c, o):
     return _request_one(c, o)
 
 
-def _request_one(c, o):
-    spec = c["spec"]
+def _arr_json(a):
+    if isinstance(a, str):
+        return dict(n=_frac(Fraction(a)))
+    if "s" in a:
+        return dict(s=a["s"])
+    return [_arr_json(x) for x in a["seq"]]
+
+
+def _py_json(c, o):
+    """the Python object passed as `spec`, as the engine's PyVal"""
+    if c["form"] == "str":
+        return dict(t="str", v=c["spec"])
+    if c["form"] == "list":
+        return dict(t="list", v=[dict(s=x) for x in c["spec"]])
     if c["form"] == "dict":
-        spec = [[k, _frac(Fraction(v))] for k, v in c["spec"]]
+        return dict(t="dict", v=[[k, _frac(Fraction(v))] for k, v in c["spec"]])
+    d = c["py"]
+    t = d["t"]
+    if t in ("none",):
+        return dict(t="none")
+    if t == "num":
+        return dict(t="num", v=_frac(Fraction(d["v"])))
+    if t == "str":
+        return dict(t="str", v=d["v"])
+    if t == "dict":
+        return dict(t="dict", v=[[k, _frac(Fraction(v))] for k, v in d["v"]])
+    if t in ("list", "tuple"):
+        return dict(t=t, v=[_arr_json(x) for x in d["v"]])
+    if t == "nd":
+        return dict(t="nd", v=_arr_json(d["v"]))
+    # an instance enters the model as the ARGUMENTS of its constructor: the model's own constructor builds it
+    return dict(t="inst", A=_arr_json(d["A"]), b=_arr_json(d["b"]), inames=d["names"])
+
+
+def _request_one(c, o):
     from harness.parser_common import char_flags
 
     # every string the code parses goes to the model as characters + the live regex classes: the model's
@@ -563,7 +1002,10 @@ def _request_one(c, o):
     for k, v in o.get("parses", []):
         w, sp = char_flags(k)
         parses.append([k, v, dict(s=k, w=w, sp=sp)])
-    return dict(names=c["names"], form=c["form"], spec=spec, parses=parses)
+    names = c["names"]
+    if c.get("via") == "modelspec":
+        names = list(MODELSPEC_NAMES)
+    return dict(names=names, py=_py_json(c, o), parses=parses)
 
 
 def agree(c, o, m):
@@ -583,6 +1025,21 @@ def agree(c, o, m):
     return _agree_one(c, o, m)
 
 
+def _cell_eq(x, y, exact):
+    """implementation cell vs model cell: numbers as "p/q"; a string cell as {"s": text}. In a string array numpy
+    holds the decimal text of a number: it must denote the model's rational."""
+    if x == y:
+        return True
+    try:
+        fx = Fraction(x["s"]) if isinstance(x, dict) else Fraction(x)
+        fy = Fraction(y["s"]) if isinstance(y, dict) else Fraction(y)
+    except (ValueError, ZeroDivisionError):
+        return False
+    if isinstance(x, dict) and isinstance(y, dict):
+        return False  # two different texts
+    return fx == fy or (not exact and _close(fx, fy))
+
+
 def _agree_one(c, o, m):
     if m.get("error") != "unmodelled":
         pm = dict((k, v) for k, v in m.get("pm", []))
@@ -590,25 +1047,45 @@ def _agree_one(c, o, m):
             if pm.get(k) != v:
                 return f"LinearConstraintParser.get_ast({k!r}): impl {v} vs model parser {pm.get(k)}"
     if m.get("error") == "unmodelled":
-        return "the AST contains an operator outside the modelled constraint table"
+        return "the specification / AST is outside what the model reads"
     if "error" in o:
         if "error" not in m:
             return f"impl raised {o['error']}, model returned a matrix"
-        allowed = set(m.get("alt", [])) | {m["error"]}
-        return None if o["error"] in allowed else f"impl raised {o['error']}, model allows {sorted(allowed)}"
-    if "error" in m:
-        return f"impl returned a matrix, model raises {m['error']}"
-    if o["A"] == m["A"] and o["b"] == m["b"]:
+        pairs = [(m["error"], m.get("msg"))] + [(a[0], a[1]) for a in m.get("alt", [])]
+        allowed = {cl for cl, _ in pairs}
+        if o["error"] not in allowed:
+            return f"impl raised {o['error']}, model allows {sorted(allowed)}"
+        if m.get("etag") and o["error"] == m["error"] and o.get("etag") != m["etag"]:
+            return f"impl raised {o['error']} with the message of {o.get('etag')!r}, model: {m['etag']!r}"
+        # the message: where the source raises with a literal text the model carries that text (checked against the
+        # live source by theorem messages_match_source); it must be the text of one of the errors the model allows
+        texts = [t for cl, t in pairs if cl == o["error"]]
+        if texts and all(t is not None for t in texts):
+            got = o.get("msg", "")
+            if not any(got == t or got.startswith(t + "\n") for t in texts):
+                return f"impl raised {o['error']}({got[:80]!r}), the model's message(s): {texts}"
         return None
-    if not c.get("exact"):
-        # literals outside the certified dyadic range: the implementation's floats are rounded
-        fa = [v for row in o["A"] for v in row] + o["b"]
-        fm = [v for row in m["A"] for v in row] + m["b"]
-        if [len(r) for r in o["A"]] == [len(r) for r in m["A"]] and len(o["b"]) == len(m["b"]) and all(
-            _close(Fraction(x), Fraction(y)) for x, y in zip(fa, fm)
-        ):
-            return None
-    return f"A/b differ: impl {o['A']} {o['b']} vs model {m['A']} {m['b']}"
+    if "error" in m:
+        return f"impl returned a matrix, model raises {m['error']} {m.get('etag', '')}"
+    exact = bool(c.get("exact", c["form"] == "py"))  # matrix forms carry small dyadic numbers only
+    same_shape = (
+        [len(r) for r in o["A"]] == [len(r) for r in m["A"]] and len(o["b"]) == len(m["b"])
+    )
+    if not same_shape or not all(
+        _cell_eq(x, y, exact) for x, y in zip([v for row in o["A"] for v in row] + o["b"], [v for row in m["A"] for v in row] + m["b"])
+    ):
+        return f"A/b differ: impl {o['A']} {o['b']} vs model {m['A']} {m['b']}"
+    if o["shape"] != [len(m["A"]), m["ncols"]] or o["bshape"] != [len(m["b"])]:
+        return f"shapes differ: impl matrix {o['shape']} values {o['bshape']} vs model {[len(m['A']), m['ncols']]} {[len(m['b'])]}"
+    if o["names"] != m["names"]:
+        return f"variable_names differ: impl {o['names']} vs model {m['names']}"
+    if o["n"] != m["n"]:
+        return f"n_constraints differ: impl {o['n']} vs model {m['n']}"
+    if o["repr"] != m["repr"]:
+        return f"repr differs: impl {o['repr']!r} vs model {m['repr']!r}"
+    if "same" in o and not o["same"]:
+        return "a LinearConstraints instance was not returned as it is (the model returns the instance itself)"
+    return None
 
 
 TOL = Fraction(1, 10 ** 9)
@@ -895,7 +1372,146 @@ def oracle(c, o):
     return _oracle_one(c, o)
 
 
+class _Ragged(Exception):
+    pass
+
+
+def _plain(a):
+    """nested Python lists of Fraction / str from an array-like description"""
+    if isinstance(a, str):
+        return Fraction(a)
+    if "s" in a:
+        return a["s"]
+    return [_plain(x) for x in a["seq"]]
+
+
+def _shape(x):
+    if not isinstance(x, list):
+        return ()
+    if not x:
+        return (0,)
+    shapes = {_shape(y) for y in x}
+    if len(shapes) != 1:
+        raise _Ragged
+    return (len(x),) + shapes.pop()
+
+
+def _flat(x):
+    return [z for y in x for z in _flat(y)] if isinstance(x, list) else [x]
+
+
+def _generic(c, o):
+    """what any returned LinearConstraints must satisfy (matrix, values, n_constraints hang together; the other
+    forms of the same content agree with it)"""
+    if "error" in o:
+        return None
+    k = len(o["A"])
+    if len(o["shape"]) != 2 or len(o["bshape"]) != 1:
+        return f"constraint_matrix has shape {o['shape']} and constraint_values shape {o['bshape']}: not a table with one value per row"
+    if o["shape"][0] != k or any(len(r) != o["shape"][1] for r in o["A"]):
+        return f"constraint_matrix is not a {o['shape']} table: {o['A']}"
+    if o["bshape"] != [k] or len(o["b"]) != k:
+        return f"{k} rows but constraint_values has shape {o['bshape']}"
+    if o["n"] != k:
+        return f"n_constraints = {o['n']} but the matrix has {k} rows"
+    if "rt" in o:
+        rt = o["rt"]
+        if "error" in rt:
+            return f"the result read back as the tuple (constraint_matrix, constraint_values) is rejected: {rt['error']}"
+        if rt["A"] != o["A"] or rt["b"] != o["b"]:
+            return f"the result read back as the tuple (constraint_matrix, constraint_values) gives A={rt['A']} b={rt['b']}, not A={o['A']} b={o['b']}"
+        if not o.get("rt_same"):
+            return "the result passed through from_spec again (a LinearConstraints instance) is not returned as it is"
+    return None
+
+
+def _oracle_py(c, o):
+    """the forms that are not formulas: a (matrix, values) pair says x -> matrix.x - values, a bare matrix says the
+    same with values 0, an instance says what it holds. Independent of the model (plain Python on the description)."""
+    d = c["py"]
+    t = d["t"]
+    names = list(MODELSPEC_NAMES) if c.get("via") == "modelspec" else c["names"]
+    if t == "inst":
+        if "given" not in o:
+            # the constructor call LinearConstraints(A, b, names) itself failed: judged like the pair (A, b)
+            return _pair_verdict(_plain(d["A"]), _plain(d["b"]), d["names"], o)
+        if "error" in o:
+            return f"a LinearConstraints instance given as the specification is rejected: {o['error']}"
+        if not o.get("same"):
+            return "a LinearConstraints instance given as the specification is not returned as it is"
+        g = o["given"]
+        if any(o[key] != g[key] for key in ("A", "b", "names", "n", "shape")):
+            return f"the instance given as the specification was changed: {g} -> { {key: o[key] for key in ('A', 'b', 'names', 'n', 'shape')} }"
+        # and the instance the constructor built holds what it was given
+        return _pair_verdict(_plain(d["A"]), _plain(d["b"]), d["names"], dict(g))
+    if t in ("none", "num"):
+        return None if "error" in o else f"{t} is not a specification but was accepted: A={o['A']} b={o['b']}"
+    if t == "tuple" and len(d["v"]) == 2:
+        m, v = _plain(d["v"][0]), _plain(d["v"][1])
+    elif t == "nd":
+        m, v = _plain(d["v"]), Fraction(0)
+    else:
+        m, v = [_plain(x) for x in d["v"]], Fraction(0)
+    return _pair_verdict(m, v, names, o)
+
+
+def _pair_verdict(m, v, names, o):
+    """(matrix, values, names) as plain nests against what came back (an observation or an error)"""
+    try:
+        ms = _shape(m)
+    except _Ragged:
+        return None if "error" in o else f"a ragged matrix was accepted: A={o['A']}"
+    try:
+        vs = _shape(v)
+    except _Ragged:
+        return None if "error" in o else f"ragged values were accepted: b={o['b']}"
+    if any(isinstance(z, str) for z in _flat(m) + _flat(v)):
+        return None  # strings inside an array: no statement
+    if len(ms) == 1:
+        m, ms = [m], (1,) + ms
+    bad = None
+    if len(ms) != 2:
+        bad = f"the matrix has {len(ms)} dimensions"
+    elif len(vs) > 1:
+        bad = f"the values have {len(vs)} dimensions"
+    elif len(vs) == 1 and vs[0] != ms[0]:
+        bad = f"{ms[0]} rows but {vs[0]} values"
+    elif names and len(names) != ms[1]:
+        bad = f"{ms[1]} columns but {len(names)} names"
+    if "error" in o:
+        return None if bad else f"a well-formed matrix specification (matrix {ms}, values {vs}, names {names}) is rejected: {o['error']}"
+    if bad:
+        return f"accepted although {bad}: A={o['A']} b={o['b']} names={o['names']}"
+    want_b = v if len(vs) == 1 else [v] * ms[0]
+    got_A = [[Fraction(z) for z in row] for row in o["A"]]
+    got_b = [Fraction(z) for z in o["b"]]
+    if got_A != m:
+        return f"the matrix given is {m} but constraint_matrix is {got_A} (rows must be kept, in order)"
+    if got_b != want_b:
+        return f"the values given are {want_b} but constraint_values is {got_b}"
+    if names and o["names"] != list(names):
+        return f"variable_names given {names}, returned {o['names']}"
+    if not names and ms[1] > 0 and o["names"] != [f"x{i}" for i in range(ms[1])]:
+        return f"no names given for {ms[1]} columns, returned {o['names']}"
+    return None
+
+
 def _oracle_one(c, o):
+    w = _generic(c, o)
+    if w:
+        return w
+    if c["form"] == "py":
+        f = _py_formula(c["py"])
+        if f is None:
+            return _oracle_py(c, o)
+        if c["names"] is None and c.get("via") != "modelspec":
+            return None if "error" in o else f"a formula was compiled without variable names: A={o['A']} b={o['b']}"
+        names = list(MODELSPEC_NAMES) if c.get("via") == "modelspec" else c["names"]
+        return _oracle_formula(dict(c, form=f[0], spec=f[1], names=names), o)
+    return _oracle_formula(c, o)
+
+
+def _oracle_formula(c, o):
     names = list(c["names"])
     try:
         cons = _written(c)
@@ -968,17 +1584,30 @@ def classify(c, o, why):
 
 
 LEVEL_TEXT = (
-    "Proof: Lean theorems (Props/C16.lean) about the executable model of formulaic/utils/constraints.py show, for EVERY abstract "
+    "Proof: Lean theorems (Props/C16.lean, 42) about the executable model of formulaic/utils/constraints.py show, for EVERY abstract "
     "syntax tree (structural induction: unbounded nesting, repeated variables, constants on both sides), every list of column "
-    "names, every set-iteration order and all three specification forms, that a returned (A, b) has one row per written "
-    "constraint in order with (A.x - b)_i = lhs_i(x) - rhs_i(x) for every rational vector x (compile_sound, "
-    "rows_in_order_written); that the result does not depend on Python's set iteration order (order_independent); that any tree "
-    "containing a product of two column-mentioning subexpressions or a division by one is rejected (nonlinear_rejected); and "
-    "that agreement at 0 and the unit vectors determines (A, b) (npoint_test_complete). The model is tied to the code on "
-    "every run by a differential correspondence on generated specifications, with the real parser's tree as input."
+    "names, every set-iteration order and all specification forms, that a returned (A, b) has one row per written "
+    "constraint in order with (A.x - b)_i = lhs_i(x) - rhs_i(x) for every rational vector x (compile_sound, rows_in_order_written, "
+    "compile_sound_every_form for from_spec itself incl. n_constraints); that the result does not depend on Python's set iteration "
+    "order (order_independent), that each entry is determined by the tree and the NAME of its column alone, so that permuting the column "
+    "list permutes the coefficients with it (entries_depend_only_on_the_name, column_order_equivariant), that it does not depend on how "
+    "the same maps are written or in which form they come (same_map_same_result, forms_agree, "
+    "matrix_form_denotes, matrix_form_has_formula (every matrix row is what an explicit formula tree compiles to), list_form_is_joined_string, dict_entry_is_string_shifted, bare_matrix_is_pair_with_zero); EXACTLY which "
+    "specifications are accepted (accepted_iff: comma-separated scalar expressions with numeric literals, no product of two "
+    "column-mentioning subexpressions, no division by one or by a constant zero, every name a column — so non-linear ones are rejected "
+    "and the syntactically linear fragment is accepted completely); that compiling is a homomorphism (compile_add/sub/eq/sign/"
+    "scalar_mul/scalar_div_hom, compile_mul_div_sem, linear_operations_total, chained_equalities_one_row); that agreement at 0 and the unit vectors determines "
+    "(A, b) (npoint_test_complete); and, for the matrix / pair / instance forms, exactly when the constructor accepts and what the "
+    "instance then holds (pair_form_accepted_iff, scalar_values_and_flat_rows, built_instance_well_shaped, instance_returned_as_is, "
+    "names_required). The model is tied to the code on every run by a differential correspondence on generated specifications of every "
+    "kind, starting at the characters of the string and at the Python object passed as the specification."
 )
 LEVEL_NOTE = (
-    "Trusted: Lean kernel + propext/Classical.choice/Quot.sound; the hand model validated by correspondence; the tokenizer and "
-    "shunting-yard enter as a parameter (their correctness is C01/C14/C15; the oracle's independent reader would expose a "
-    "mis-parse); rational arithmetic instead of IEEE floats; completeness (every linear specification accepted) is not claimed."
+    "Trusted: Lean kernel + propext/Classical.choice/Quot.sound; the hand model validated by correspondence (results, shapes, names, "
+    "n_constraints, exception classes and messages); the tokenizer/shunting-yard model is shared with C01/C14/C15 (the oracle's "
+    "independent reader would expose a mis-parse); numpy.array / vstack / hstack and ast.literal_eval are modelled, not verified; "
+    "rational arithmetic instead of IEEE floats. Completeness is claimed only for the syntactically linear fragment (accepted_iff): "
+    "`(a-a)*b` is linear as a map but rejected by design. Code-as-it-is quirks the model mirrors and the theorems state: with no column "
+    "the constructor stores x0…x(rows-1) as variable_names (built_instance_well_shaped); a number or None as the specification raises "
+    "IndexError, not ValueError; `a = b = c` is the single constraint a - b - c (chained_equalities_one_row)."
 )
